@@ -54,7 +54,7 @@ theorem pend_range {u : Text → Text} {ks : List Node} {i : List Cls} {m : List
 
 theorem tokenNext_range {ks : List Node} {t n : Nat} {k : Node} (h : tokenNext ks t = some (n, k)) :
     t < n ∧ n < ks.length := by
-  obtain ⟨h1, h2, _⟩ := tokenNext_spec h
+  obtain ⟨h1, h2, _⟩ := tokenNext_hit h
   exact ⟨h1, (List.getElem?_eq_some_iff.1 h2).1⟩
 
 /-! ### group_identifier -/
@@ -259,7 +259,7 @@ theorem orderLoop_noerr {u : Text → Text} : ∀ (n : Nat) (ks : List Node) (pe
       | none => simp only [hpv] at h; exact ih _ _ _ h hsame
       | some q =>
         obtain ⟨pidx, prev⟩ := q
-        obtain ⟨hlt, _⟩ := tokenPrev_spec hpv
+        obtain ⟨hlt, _⟩ := tokenPrev_hit hpv
         simp only [hpv] at h
         split at h
         · cases hg : groupTokens ks Gen.group_order_group_tokens0_cls pidx t true
@@ -301,7 +301,7 @@ theorem alignLoop_noerr {u : Text → Text} : ∀ (n : Nat) (ks : List Node) (pe
       | none => simp only [hpv] at h; exact ih _ _ _ h hsame
       | some q =>
         obtain ⟨pidx, prev⟩ := q
-        obtain ⟨hlt, _⟩ := tokenPrev_spec hpv
+        obtain ⟨hlt, _⟩ := tokenPrev_hit hpv
         simp only [hpv] at h
         split at h
         · cases hg : groupTokens ks Gen.align_comments_group_tokens0_cls pidx t true
@@ -363,7 +363,7 @@ theorem commentsLoop_noerr {u : Text → Text} : ∀ (n : Nat) (ks : List Node) 
       | some q =>
         obtain ⟨eidx, ek⟩ := q
         simp only at h
-        obtain ⟨h1, h2, h3, _⟩ := tokenMatchingFwd_spec hmf
+        obtain ⟨h1, h2, h3, _⟩ := tokenMatchingFwd_hit hmf
         have hne : eidx ≠ t := by
           intro heq
           subst heq
